@@ -438,6 +438,7 @@ func checkDispatchTable(r *Run, rule string) {
 		}
 		seen[kind] = true
 		// calls of Session methods dominated by the clause body
+		h := h
 		var calls []*ssa.Call
 		eachInstr(h, func(in2 ssa.Instruction) {
 			if c, ok := in2.(*ssa.Call); ok && c.Call.IsInvoke() && isP9P(c.Call.Value.Type(), "Session") && (body == c.Block() || body.Dominates(c.Block())) {
@@ -445,6 +446,14 @@ func checkDispatchTable(r *Run, rule string) {
 			}
 		})
 		key := fmt.Sprintf("Handle: %s → Session.%s → R%s", kind, want[kind], kind[1:])
+		if len(calls) == 0 {
+			if g, _ := delegatedClause(p, h, body, want[kind]); g != nil {
+				r.SawFn(fnName(g))
+				h = g
+				body = g.Blocks[0]
+				calls = findCallsInvoke(g, want[kind], "Session")
+			}
+		}
 		if len(calls) != 1 || calls[0].Call.Method.Name() != want[kind] {
 			got := []string{}
 			for _, c := range calls {
@@ -1028,4 +1037,43 @@ func handlerRunsUnderRequestContext(r *Run, sp *serveParts, rule string) {
 	r.Check(ok, rule, "handler: Handle runs under the request's own cancellable context", sp.handle.Pos(),
 		"the handler is invoked with a context other than the per-request one whose cancel func is in the tag table: a flush (or the shutdown) cancels a context the handler is not listening to")
 	r.Floor(rule, len(ctxVals), 1, "per-request context.WithCancel in serve")
+}
+
+// delegatedClause: a dispatcher clause that hands the request to a helper of the package
+// (`return sess.handleRead(ctx, msg)`). The helper's body is the clause provided it makes exactly one call of a
+// Session method (the one named, or any when method is "") and every return of the clause hands back the helper's
+// results unchanged. Returns the helper and the delegating call, or nil.
+func delegatedClause(p *Prog, h *ssa.Function, body *ssa.BasicBlock, method string) (*ssa.Function, *ssa.Call) {
+	inClause := func(b *ssa.BasicBlock) bool { return body == b || body.Dominates(b) }
+	sessionCalls := func(g *ssa.Function) []*ssa.Call {
+		var out []*ssa.Call
+		eachInstr(g, func(in ssa.Instruction) {
+			if c, ok := in.(*ssa.Call); ok && c.Call.IsInvoke() && isP9P(c.Call.Value.Type(), "Session") && (method == "" || c.Call.Method.Name() == method) {
+				out = append(out, c)
+			}
+		})
+		return out
+	}
+	var deleg *ssa.Call
+	n := 0
+	eachInstr(h, func(in2 ssa.Instruction) {
+		if c, ok := in2.(*ssa.Call); ok && inClause(c.Block()) {
+			if g := staticCallee(&c.Call); g != nil && g.Blocks != nil && p.InModule(g) && len(sessionCalls(g)) == 1 {
+				deleg = c
+				n++
+			}
+		}
+	})
+	if deleg == nil || n != 1 {
+		return nil, nil
+	}
+	for _, ret := range returnsOf(h) {
+		if !inClause(ret.Block()) {
+			continue
+		}
+		if len(ret.Results) != 2 || ret.Results[0] != resultN(deleg, 0) || ret.Results[1] != resultN(deleg, 1) {
+			return nil, nil
+		}
+	}
+	return staticCallee(&deleg.Call), deleg
 }
